@@ -3,6 +3,7 @@ package main
 import (
 	"fmt"
 	"go/token"
+	"math"
 	"go/types"
 	"strconv"
 	"strings"
@@ -220,6 +221,28 @@ func (e *Engine) intrinsic(fn *ssa.Function, args []Value) (Value, bool) {
 		}
 	case "os.Getenv":
 		return "", true
+	case "math.Trunc", "math.Floor", "math.Ceil", "math.Abs", "math.Round":
+		if f, ok := args[0].(float64); ok {
+			switch name {
+			case "math.Trunc":
+				return math.Trunc(f), true
+			case "math.Floor":
+				return math.Floor(f), true
+			case "math.Ceil":
+				return math.Ceil(f), true
+			case "math.Abs":
+				return math.Abs(f), true
+			default:
+				return math.Round(f), true
+			}
+		}
+		if t, ok := args[0].(*Term); ok {
+			mode := map[string]string{"math.Trunc": "RTZ", "math.Floor": "RTN", "math.Ceil": "RTP", "math.Round": "RNA"}[name]
+			if name == "math.Abs" {
+				return mkTerm("(fp.abs "+t.S+")", t.Sort), true
+			}
+			return mkTerm("(fp.roundToIntegral "+mode+" "+t.S+")", t.Sort), true
+		}
 	}
 	if h, ok := e.sh.extraIntrinsics[name]; ok {
 		return h(e, fn, args), true
